@@ -27,7 +27,8 @@ def run(cx):
     cx.rule("C09.R3", "parse dominates emit, failure is reported: code is generated only behind the Ok edge of IDL::try_from and written only behind the Ok edge of varlink_to_rust; in the cargo build helpers every failed generation reaches exit(1)")
     cx.rule("C09.R4", "panic census of the generator: every may-panic construct reachable from the front-ends is a reviewed table entry (the identifier sinks are R1's)")
     cx.rule("C09.R5", "every type the output names is emitted: composite type arms recurse into their element type through to_rust_string (which emits inline structs/enums) and inline struct/enum arms call to_tokenstream for the name they return; no wildcard arm hides a constructor")
-    r1(cx); r2(cx); r3(cx); r4(cx)
+    cx.rule("C09.R6", "template well-formedness for every list length: no separated repetition #(..)SEP* is followed by the same separator (an empty list would leave a lone separator), and the argument list of every emitted call/constructor is taken from the same IDL member list as the declaration it must match (method parameters and <M>_Args fields from t.input, reply() parameters and <M>_Reply fields from t.output)")
+    r1(cx); r2(cx); r3(cx); r4(cx); r6(cx)
     from .C08 import r5 as type_table
     type_table(cx, cx.ast, rule="C09.R5")
 
@@ -205,3 +206,100 @@ def r4(cx):
             cx.bad("C09.R4", key, "%s %s" % (ps["sp"], b.path), "new may-panic construct (%s %s) in the generator: an accepted interface definition reaching it aborts generation with a panic instead of a diagnostic" % (ps["kind"], ps["what"]))
     cx.floor("C09.R4", "generator functions reachable from the front-ends", len(bodies), 8)
     cx.notes.append("C09.R4: %d may-panic constructs examined" % n)
+
+
+def _reps(tokens):
+    """separated/unseparated repetitions in a quote! token list: yields (index, group, separator or None, index after)"""
+    for i, t in enumerate(tokens):
+        if t["t"] == "punct" and t["s"] == "#" and i + 1 < len(tokens) and tokens[i + 1]["t"] == "group" and tokens[i + 1]["d"] == "(":
+            j = i + 2
+            if j < len(tokens) and tokens[j]["t"] == "punct" and tokens[j]["s"] == "*": yield i, tokens[i + 1], None, j + 1
+            elif j + 1 < len(tokens) and tokens[j]["t"] == "punct" and tokens[j + 1]["t"] == "punct" and tokens[j + 1]["s"] == "*": yield i, tokens[i + 1], tokens[j]["s"], j + 2
+
+
+def _all_lists(tokens):
+    yield tokens
+    for t in tokens:
+        if t["t"] == "group":
+            for x in _all_lists(t["c"]): yield x
+
+
+def _interp_names(tokens):
+    out = []
+    toks = list(tt_walk(tokens))
+    for i, t in enumerate(toks):
+        if t["t"] == "punct" and t["s"] == "#" and i + 1 < len(toks) and toks[i + 1]["t"] == "ident": out.append(toks[i + 1]["s"])
+    return out
+
+
+# emitted construct (token pattern before the bracketed list) -> IDL member list its repetition must come from
+ARG_CONTEXTS = [
+    (("self", ".", "inner", ".", "#", "method_name"), "(", "input", "call of the implementation's method"),
+    (("fn", "#", "method_name"), "(", "input", "method declaration"),
+    (("#", "in_struct_name"), "{", "input", "<Method>_Args constructor"),
+    (("#", "out_struct_name"), "{", "output", "<Method>_Reply constructor"),
+    (("fn", "reply"), "(", "output", "reply() declaration"),
+]
+
+
+def r6(cx):
+    ast = cx.ast
+    nrep = 0; nctx = 0
+    for f in ast.file(GEN)["_fns"]:
+        qs = f.macros("quote")
+        if not qs: continue
+        # provenance of the list variables: roots are the vectors generate_anon_struct fills from t.input / t.output
+        root = {}
+        for e in f.ev("call"):
+            if e["text"] == "generate_anon_struct" and len(e["args"]) >= 6:
+                src = "input" if re.search(r"\binput\b", e["args"][1]) else "output" if re.search(r"\boutput\b", e["args"][1]) else "other"
+                for a in e["args"][3:]:
+                    m = re.fullmatch(r"&\s*mut\s+(\w+)", a.strip())
+                    if m and m.group(1) != "ts": root[m.group(1)] = src
+        lets = {}
+        for e in f.ev("let"):
+            nm = re.sub(r"^mut\s+", "", e["pat"]).strip()
+            if re.fullmatch(r"\w+", nm): lets.setdefault(nm, []).append(e["text"])
+        def classify(name, depth=0, seen=()):
+            out = set()
+            inits = lets.get(name, [])
+            for init in inits:
+                ids = set(re.findall(r"\b[a-z_][a-z0-9_]*\b", re.sub(r'"(?:[^"\\]|\\.)*"', "", init)))
+                for i2 in ids:
+                    if i2 == name and i2 in root: out.add(root[i2])
+                    elif i2 in root: out.add(root[i2])
+                    elif i2 in lets and i2 not in seen and i2 != name and depth < 6: out |= classify(i2, depth + 1, seen + (name,))
+            if not inits and name in root: out.add(root[name])
+            return out
+        ordn = {}
+        for e in qs:
+            for toks in _all_lists(e["tokens"]):
+                for i, grp, sep, after in _reps(toks):
+                    nrep += 1
+                    if sep is not None and after < len(toks) and toks[after]["t"] == "punct" and toks[after]["s"] == sep:
+                        k = ordn.get("sep", 0); ordn["sep"] = k + 1
+                        cx.bad("C09.R6", "gen:%s:repetition-then-separator#%d" % (f.qual, k), "%s:%s" % (GEN, grp.get("l", e["line"])),
+                               "#(%s)%s* is followed by another `%s`: for an interface where the list is empty the output contains a lone `%s` and does not parse" % (tt_str(grp["c"])[:60], sep, sep, sep))
+                # argument-source agreement
+                flat = [(t["s"] if t["t"] != "group" else None) for t in toks]
+                for pat, delim, want, what in ARG_CONTEXTS:
+                    L = len(pat)
+                    for i in range(len(toks) - L):
+                        if tuple(flat[i:i + L]) != pat: continue
+                        g = toks[i + L]
+                        if g["t"] != "group" or g["d"] != delim: continue
+                        names = []
+                        for _, rg, _, _ in _reps(g["c"]): names += _interp_names(rg["c"])
+                        if not names: continue
+                        nctx += 1
+                        k = ordn.get(what, 0); ordn[what] = k + 1
+                        wrong = {}
+                        for nme in names:
+                            cl = classify(nme)
+                            if cl != {want}: wrong[nme] = sorted(cl) or ["unknown"]
+                        cx.check(not wrong, "C09.R6", "gen:%s:%s#%d:list-source" % (f.qual, what, k), "%s:%s" % (GEN, g.get("l", e["line"])),
+                                 "the %s takes its list from %s but its counterpart is generated from t.%s: for a method whose input and output lists differ in length or names the output does not compile" % (what, wrong, want),
+                                 note_ok="list from t.%s (%s)" % (want, ", ".join(sorted(set(names)))))
+    cx.check(True, "C09.R6", "gen:repetition-then-separator", GEN, "", note_ok="%d repetitions examined" % nrep)
+    cx.floor("C09.R6", "repetitions in the generator's templates", nrep, 12)
+    cx.floor("C09.R6", "emitted argument lists with a declared source", nctx, 7)
